@@ -128,7 +128,11 @@ def _arc_obligations(run, ix):
     # ---------------- A4 SVG export: the large-arc flag is the span test
     run.rule("A4", "SVG export: the large-arc flag of an arc is `span > pi` with the span returned by arc_center (proved independent of the control point by A2)")
     from ..provenance import Prov
-    fs = ix.func("trimesh.path.exchange.svg_io:_entities_to_str.svg_arc")
+    fs = ix.func_by_role("trimesh.path.exchange.svg_io:_entities_to_str.svg_arc",
+                         lambda f_: any(isinstance(st_, ast.Assign) and isinstance(st_.targets[0], ast.Name) and st_.targets[0].id == "large_flag" for st_ in ast.walk(f_.node))
+                         and not any(n_.node is not f_.node and any(isinstance(st_, ast.Assign) and isinstance(st_.targets[0], ast.Name) and st_.targets[0].id == "large_flag"
+                                                                    for st_ in ast.walk(n_.node)) for n_ in f_.nested.values()),
+                         "the function that computes the SVG large-arc flag")
     ps = Prov(ix, fs)
     lf = [st for st in ast.walk(fs.node) if isinstance(st, ast.Assign) and isinstance(st.targets[0], ast.Name) and st.targets[0].id == "large_flag"]
     if len(lf) != 1:
@@ -329,15 +333,17 @@ def check(run):
     srcs, reach = return_sources(h.node)
     inside = {id(x) for e in srcs for x in ast.walk(e)}
     has_vertices = any(ast.unparse(x) in ("self.vertices.__hash__()", "hash(self.vertices)") for e in srcs for x in ast.walk(e) if isinstance(x, ast.Call))
-    has_entities = any(c.iter == "self.entities" and c.elt in ("_1._bytes()", "[_1._bytes()]") and not c.filters
+    has_entities = any(c.iter == "self.entities" and re.fullmatch(r"\[?_1\.\w+\(\)\]?", c.elt) and not c.filters
                        and (id(c.node) in inside if c.acc is None else c.acc in reach) for c in contributions(h.node))
     ok = has_vertices and has_entities
     run.instance("R3", h.where, "Path hash = vertices hash + bytes of every entity", ok)
     if not ok:
         run.violation("R3", h.where, "Path.__hash__ does not cover the vertex array and every entity", key=key_of("C14-R3", "path-hash"))
     em = ix.modules["trimesh.path.entities"]
+    from ..accum import entity_bytes_name
+    _bytes_name = entity_bytes_name(ix)
     for cname, c in em.classes.items():
-        b = c.methods.get("_bytes")
+        b = c.methods.get(_bytes_name)
         if b is None:
             continue
         local = {st.targets[0].id: ast.unparse(st.value) for st in ast.walk(b.node)
